@@ -426,6 +426,7 @@ def _r4_subscripts(ctx):
         ctx, [S.cs_of("#"), S.cs_of("<"), S.cs_of(">"), S.cs_of("/"),
               S.cs_of("%"), S.category("space")])
     empty = S.lang_full("", ab)
+    decided = {id(node) for node, k, pre in index_sites}
     for node, k, pre in index_sites:
         run.check((pre & empty).is_empty(), "C07.R4", fn.qualname, src(node),
                   "path language excludes the empty line",
@@ -447,7 +448,9 @@ def _r4_subscripts(ctx):
                 elif isinstance(sl, ast.UnaryOp) and isinstance(
                         sl.operand, ast.Constant):
                     idx = -sl.operand.value
-                if idx is None:
+                if idx is None or id(n) in decided:
+                    # (a subscript of the line inside a helper of parse() is
+                    # decided above, on the paths that run through it)
                     continue
                 ok, why = _subscript_guard(ctx, fi, n, idx)
                 run.check(ok, "C07.R4", fi.qualname, src(n), why,
@@ -523,16 +526,90 @@ def _is_error_call(call):
 # ---------------------------------------------------------------------- R5
 
 # Reasoned, frozen exceptions to R5, keyed by (function, construct).
-R5_EXCEPTIONS = {
-    ("ZConfig.loader.CompositeHandler.__call__", "d[handler]"):
-        "every handler name is present: established by the missing-name loop "
-        "that precedes the calling loop (C16.R1/R2)",
-    ("ZConfig.loader.SchemaLoader.schemaComponentSource",
-     "sys.modules[package]"):
-        "follows a successful __import__(package) in the same function",
-    ("ZConfig.loader.openPackageResource", "sys.modules[package]"):
-        "follows a successful __import__(package) in the same function",
-}
+R5_EXCEPTIONS = {}
+
+
+def _stmts_before(fi, node):
+    """Statements that precede `node` in its own block or in an enclosing
+    block of the function (so they have run whenever `node` runs, unless they
+    left the function)."""
+    out = []
+    p = node
+    while p is not None and p is not fi.node:
+        par = getattr(p, "_parent", None)
+        if par is None:
+            break
+        for fld in ("body", "orelse", "finalbody"):
+            blk = getattr(par, fld, None)
+            if isinstance(blk, list) and p in blk:
+                out.extend(blk[:blk.index(p)])
+        p = par
+    return out
+
+
+def _r5_structural_guard(fi, x, key_txt, base_txt):
+    """Two idioms that establish the key's presence before the lookup.
+
+    (f) `sys.modules[k]` after `__import__(k)` earlier in the function;
+    (g) the key is the target of a loop over a sequence S, and an earlier
+        statement walks the same S testing `key in/not in <the mapping>`
+        and is followed by a raise before the lookup loop is reached
+        (all-or-nothing validation pass, then the pass that uses it)."""
+    before = _stmts_before(fi, x)
+    if base_txt == "sys.modules":
+        for st in before:
+            for n in ast.walk(st):
+                if isinstance(n, ast.Call) and src(n.func) == "__import__" \
+                        and n.args and src(n.args[0]) == key_txt:
+                    return "follows __import__(%s) in the same function" \
+                        % key_txt
+        return None
+    # (g)
+    loop = None
+    p = x
+    while p is not None and p is not fi.node:
+        par = getattr(p, "_parent", None)
+        if isinstance(par, ast.For) and p in par.body:
+            names = [src(t) for t in (par.target.elts if isinstance(
+                par.target, ast.Tuple) else [par.target])]
+            if key_txt in names:
+                loop = (par, names.index(key_txt))
+                break
+        p = par
+    if loop is None:
+        return None
+    lp, pos = loop
+    seq = src(lp.iter)
+    pre = _stmts_before(fi, lp)
+    for i, st in enumerate(pre):
+        tested = False
+        for n in ast.walk(st):
+            tgt = it = None
+            if isinstance(n, ast.For):
+                tgt, it = n.target, n.iter
+            elif isinstance(n, ast.comprehension):
+                tgt, it = n.target, n.iter
+            if tgt is None or src(it) != seq:
+                continue
+            names = [src(t) for t in (tgt.elts if isinstance(tgt, ast.Tuple)
+                                      else [tgt])]
+            if pos >= len(names):
+                continue
+            k2 = names[pos]
+            scope = n if isinstance(n, ast.For) else getattr(n, "_parent", n)
+            for c in ast.walk(scope):
+                if isinstance(c, ast.Compare) and len(c.ops) == 1 \
+                        and isinstance(c.ops[0], (ast.In, ast.NotIn)) \
+                        and src(c.left) == k2 \
+                        and src(c.comparators[0]) == base_txt:
+                    tested = True
+        if tested and any(isinstance(r, ast.Raise) for s2 in pre[i:]
+                          for r in ast.walk(s2)):
+            return ("every element of %s was tested for membership in %s by "
+                    "an earlier pass that raises (validation pass, then use)"
+                    % (seq, base_txt))
+    return None
+
 
 
 def _r5_mappings(ctx):
@@ -634,6 +711,8 @@ def _r5_mappings(ctx):
                                     isinstance(a.ops[0], ast.NotIn)
                                     and not pol):
                                 why = "dominated by `%s`" % src(a)
+            if why is None:
+                why = _r5_structural_guard(fi, x, key_txt, base_txt)
             run.check(why is not None, "C07.R5", fi.qualname, construct,
                       why or "", "the mapping lookup %s has no guard: a key "
                       "derived from configuration text that is absent raises "
